@@ -389,6 +389,46 @@ Definition routed_ok (r : routed) (path : string) (o : outcome) : bool :=
   | NoCall st => match o_trace o with [] => N.eqb (o_status o) st | _ => false end
   end.
 
+(** ** What the specification tolerates beside the calls the statement is about
+
+    The statement fixes which backend operation a request reaches and with which
+    path, and where no operation is reached; it does not fix the exact sequence
+    of read-only backend calls an implementation makes on the way (looking a
+    resource up to fill in a header, say).  So the verdict on an observation
+    tolerates additional calls that cannot change the backend — the Get…, List…,
+    Query… and current-user lookups — PROVIDED their path argument is the request
+    path unchanged (or they take none): a read-only call with any other path is
+    a wrongly routed call and fails like any other. *)
+Definition read_only (o : op) : bool :=
+  match o with
+  | OpPrincipal | OpHomeSet | OpListColls | OpGetColl | OpGetObj | OpListObjs | OpQueryObjs => true
+  | OpCreateColl | OpDeleteColl | OpPutObj | OpDeleteObj => false
+  end.
+
+Definition tolerable (path : string) (c : call) : bool :=
+  read_only (fst c) && (String.eqb (snd c) "" || String.eqb (snd c) path).
+
+Definition mutating (t : list call) : list call := filter (fun c => negb (read_only (fst c))) t.
+
+Definition expected_call (p : op) (wp : bool) (path : string) (c : call) : bool :=
+  op_eqb p (fst c) && String.eqb (snd c) (if wp then path else "").
+
+(** the calls in front of the expected one: tolerable ones only *)
+Fixpoint reaches (p : op) (wp : bool) (path : string) (t : list call) : bool :=
+  match t with
+  | [] => false
+  | c :: r => expected_call p wp path c || (tolerable path c && reaches p wp path r)
+  end.
+
+(** [routed_ok] up to tolerable calls: the table's operation is reached, with
+    the request path, after tolerable calls only; where the table has none, only
+    tolerable calls are made and the status is the table's. *)
+Definition routed_tol (r : routed) (path : string) (o : outcome) : bool :=
+  match r with
+  | Reach p wp => reaches p wp path (o_trace o)
+  | NoCall st => forallb (tolerable path) (o_trace o) && N.eqb (o_status o) st
+  end.
+
 (** * Correspondence verdicts (extracted) *)
 
 Fixpoint list_eqb {A} (eqb : A -> A -> bool) (l1 l2 : list A) : bool :=
@@ -419,10 +459,12 @@ Definition in_quantifier (s : server) (hprefix : string) (q : request) (l : layo
   && negb (String.eqb (q_path q) (well_known s)).
 
 (** The specification applied to an observation of the implementation:
-    - the first backend operation is the one the table gives for the depth of
-      the path below the prefix, with the request path unchanged;
-    - MKCOL: created (201, exactly one CreateCalendar/CreateAddressBook with the
-      request path) at depth 3, 403 without any backend call elsewhere;
+    - the backend operation reached is the one the table gives for the depth of
+      the path below the prefix, with the request path unchanged ([routed_tol]:
+      up to additional read-only calls with that same path);
+    - MKCOL: created (201, exactly one mutating call: CreateCalendar /
+      CreateAddressBook with the request path) at depth 3; 403 without any
+      mutating call elsewhere; every other call tolerable;
     - PROPFIND on a principal / home-set path that is not the current user's:
       no response at all. *)
 Definition is_mkcol (m : meth) : bool := match m with MMkcol => true | _ => false end.
@@ -430,11 +472,12 @@ Definition is_propfind (m : meth) : bool := match m with MPropfind => true | _ =
 
 Definition spec_ok (s : server) (b : backend) (q : request) (l : layout) (o : outcome) : bool :=
   let level := List.length (l_rs l) in
-  (if plain q then routed_ok (route s (q_meth q) level) (q_path q) o else true)
+  (if plain q then routed_tol (route s (q_meth q) level) (q_path q) o else true)
   && (if is_mkcol (q_meth q) && plain q then
-        if Nat.eqb level 3
-        then N.eqb (o_status o) 201 && list_eqb call_eqb (o_trace o) [(OpCreateColl, q_path q)]
-        else N.eqb (o_status o) 403 && list_eqb call_eqb (o_trace o) []
+        forallb (fun c => negb (read_only (fst c)) || tolerable (q_path q) c) (o_trace o)
+        && (if Nat.eqb level 3
+            then N.eqb (o_status o) 201 && list_eqb call_eqb (mutating (o_trace o)) [(OpCreateColl, q_path q)]
+            else N.eqb (o_status o) 403 && list_eqb call_eqb (mutating (o_trace o)) [])
       else true)
   && (if is_propfind (q_meth q) then
         if (Nat.eqb level 1 && negb (same_path (q_path q) (principal b)))
